@@ -512,7 +512,7 @@ func (r *Rel) proveAndAssume(c *Ctx, key, goal string) bool {
 // repeated without it (verifyRelational), so that no obligation ever rests on an unproved lemma.
 func (r *Rel) proveOnly(c *Ctx, key, goal string) bool {
 	r.lemmaSeq++
-	if r.deny[key] {
+	if r.deny[key] || r.deny["*"] {
 		return false
 	}
 	r.pending = append(r.pending, &Obl{Name: "lemma/" + key, Kind: "rel", Goal: goal, Prefix: len(c.lines), ctx: c})
@@ -744,6 +744,7 @@ func (pr *Program) relTagsFor(fn *ssa.Function) []string {
 func (pr *Program) verifyRelational(fn *ssa.Function) *Ctx {
 	deny := map[string]bool{}
 	tried, proved, ms := 0, 0, 0
+	start := time.Now()
 	for round := 0; ; round++ {
 		c := pr.verifyRelationalOnce(fn, deny)
 		if c.rel == nil {
@@ -774,11 +775,18 @@ func (pr *Program) verifyRelational(fn *ssa.Function) *Ctx {
 		if *flagVerbose {
 			fmt.Printf("  %s: round %d: %d lemmas, %d not proved\n", pr.funcName(fn), round, len(c.rel.pending), bad)
 		}
-		if bad == 0 || round >= 4 {
-			if bad != 0 {
-				c.errorf("%s: relational lemmas did not stabilise", pr.funcName(fn))
-			}
+		if bad == 0 {
 			c.rel.lemmasTried, c.rel.lemmas, c.rel.lemmaMS = tried, proved, ms
+			return c
+		}
+		if round >= 12 || time.Since(start) > 25*time.Minute {
+			// no fixed point within the budget: fall back to generation without any auxiliary
+			// lemma (sound; the obligations are then harder for the solvers)
+			deny["*"] = true
+			c = pr.verifyRelationalOnce(fn, deny)
+			if c.rel != nil {
+				c.rel.lemmasTried, c.rel.lemmas, c.rel.lemmaMS = tried, proved, ms
+			}
 			return c
 		}
 	}
